@@ -457,6 +457,22 @@ func runCase(cfg Config, c Case, modulus string) *caseResult {
 				}
 			}
 		}
+		if !rp.ModelRepro {
+			// last resort: the same replay in a FRESH process. Library code with process-wide state
+			// (a package-level cache, a sync.Once) behaves differently in a process that has already
+			// run the harness symbolically; a defect that lives in such state reproduces only from a
+			// clean start.
+			for _, m := range []map[string]string{o.Model, {"__seed__": fmt.Sprint(cfg.Seed*1000 + 1)}} {
+				if replayFresh(cfg, replayResult{Obligation: id, Case: c.ID, Modulus: modulus, Model: m, Reason: o.Reason, RealRepro: "n/a"}) {
+					rp.ModelRepro = true
+					if m != nil {
+						rp.Model = m
+						o.Model = m
+					}
+					break
+				}
+			}
+		}
 		if c.Real != nil && modulus == "secp256k1" && o.Model != nil {
 			if replayReal(c, id, o.Model) {
 				rp.RealRepro = "yes"
@@ -520,6 +536,28 @@ func writeReplay(cfg Config, rp replayResult) string {
 		"how": fmt.Sprintf("./check %s --replay %s", cfg.Property, p)}, "", " ")
 	_ = os.WriteFile(p, b, 0o644)
 	return p
+}
+
+// replayFresh runs the replay of rp in a new process of this binary (see the call site).
+func replayFresh(cfg Config, rp replayResult) bool {
+	exe, err := os.Executable()
+	if err != nil {
+		return false
+	}
+	dir, err := os.MkdirTemp(filepath.Join(cfg.VerifDir, "work"), "fresh-replay-")
+	if err != nil {
+		return false
+	}
+	defer os.RemoveAll(dir)
+	p := filepath.Join(dir, "replay.json")
+	b, _ := json.Marshal(map[string]any{"property": cfg.Property, "engine": "E2", "replay": rp})
+	if os.WriteFile(p, b, 0o644) != nil {
+		return false
+	}
+	cmd := exec.Command(exe, "-property", cfg.Property, "-tier", cfg.Tier, "-verif", cfg.VerifDir, "-replay", p)
+	cmd.Env = append(os.Environ(), "GOMAXPROCS=1")
+	out, _ := cmd.CombinedOutput()
+	return strings.Contains(string(out), "concrete model run reproduces=true")
 }
 
 // ReplayFile re-runs a recorded counterexample (concrete model, and real secp256k1 when the case
